@@ -115,6 +115,15 @@ class _GraphIO(collections.UserList["_core.Value"]):
         # This is a shallow copy, so the values are not copied, just the references
         return self.data.copy()
 
+    def __copy__(self) -> list[_core.Value]:
+        """``copy.copy()`` gives a plain list, like :meth:`copy`.
+
+        The inherited ``UserList.__copy__`` would create a second tracked list bound to the same
+        graph and sharing the reference counter: editing that copy would clear the ownership
+        flags of values the graph still lists.
+        """
+        return self.data.copy()
+
     def __setitem__(self, i, item) -> None:
         """Replace an input/output to the node."""
         if isinstance(item, Iterable) and isinstance(i, slice):
